@@ -66,6 +66,7 @@ public:
    bool IsParenOpen() const;
    bool IsParenClose() const;
    bool TestFlags(unsigned long flags) const;
+   void SetFlags(unsigned long flags);
    size_t GetLevel() const;
    size_t GetPpLevel() const;
    void SetPpLevel(size_t level);
